@@ -568,8 +568,8 @@ Proof.
       destruct (block_ext n Hb) as [_ [Iup _]]. rewrite Iup in Hu.
       pose proof (run_events_pul x (evs n) t _ _ _ t' (block_run c ss0 H1 n Hb) KE R0 S0 Hs Kx Tx Hu) as Hin.
       unfold init_scope in Hin. destruct (Nat.eqb n (c_entry c)); simpl in Hin; exact Hin.
-  - rewrite (stats_blk c ss n Hlen Hb) in Hd, Hm. simpl in Hd, Hm. unfold flow_succ in Hm.
-    rewrite (stats_blk c ss n Hlen Hb) in Hm. simpl in Hm. rewrite app_nil_r in Hm.
+  - unfold flow_succ in Hm. rewrite (stats_blk c ss n Hlen Hb) in Hd, Hm. simpl in Hd, Hm.
+    rewrite app_nil_r in Hm.
     assert (Hex : n <> c_exit c).
     { intros E. subst n. destruct HW as [_ [Ws _]]. rewrite Ws in Hm. destruct Hm. }
     rewrite (sf_eq n Hex) in Hd.
@@ -583,4 +583,320 @@ Proof.
     + rewrite (proj2 (HR x Kx) Hv), Tx. reflexivity.
 Qed.
 
+
+Lemma check_dataflow_rej : forall fx bs k,
+  match check_dataflow fx c ss L k bs with
+  | RejUsed b xs => exists j blk, b = k + j /\ nth_error bs j = Some blk /\
+      check1 (nth_scope ss b) L (lb_succ blk) = Some xs /\ xs <> []
+  | RejUnused b xs => exists j blk, b = k + j /\ nth_error bs j = Some blk /\
+      check1 (nth_scope ss b) L (lb_succ blk) = Some [] /\
+      check2 fx (nth_scope ss b) L b (lb_succ blk) = xs /\ xs <> []
+  | _ => True
+  end.
+Proof.
+  intros fx. induction bs as [|blk r IH]; intros k; simpl; auto.
+  destruct (check1 (nth_scope ss k) L (lb_succ blk)) as [[|x xs]|] eqn:E1; auto.
+  - destruct (check2 fx (nth_scope ss k) L k (lb_succ blk)) as [|y ys] eqn:E2.
+    + destruct (row_ok c (nth_scope ss k) L k); auto.
+      specialize (IH (S k)). destruct (check_dataflow fx c ss L (S k) r); auto.
+      * destruct IH as [j [b' [A B]]]. exists (S j), b'. split; [lia|]. exact B.
+      * destruct IH as [j [b' [A B]]]. exists (S j), b'. split; [lia|]. exact B.
+    + exists 0, blk. rewrite Nat.add_0_r. repeat split; auto. discriminate.
+  - exists 0, blk. rewrite Nat.add_0_r. repeat split; auto. discriminate.
+Qed.
+
+Hypothesis HG : forall b, b < N -> greach b.
+
+(** (c) used here, still needed later *)
+Theorem complete_used : forall fx b xs, check_dataflow fx c ss L 0 (c_blocks c) = RejUsed b xs -> violated.
+Proof.
+  intros fx b xs H. pose proof (check_dataflow_rej fx (c_blocks c) 0) as P. rewrite H in P.
+  destruct P as [j [blk [A [B [C1 Hne]]]]]. simpl in A. subst j.
+  destruct (nth_error_block _ _ B) as [Hb Eb]. subst blk.
+  destruct xs as [|x xs]; [congruence|]. clear Hne.
+  unfold check1 in C1.
+  destruct (forallb (fun x => match lookup (nth_scope ss b) x with Some _ => true | None => false end)
+                    (flat_map (getv L) (succs b))); [|discriminate].
+  inversion C1 as [C1']. clear C1.
+  assert (Hx : In x (filter (fun x => match lookup (nth_scope ss b) x, used (nth_scope ss b) x with
+                              | Some l, Some true => negb (is_copy (l_kind l))
+                              | _, _ => false end) (flat_map (getv L) (succs b)))) by (rewrite C1'; simpl; auto).
+  apply filter_In in Hx. destruct Hx as [Hfl Hp]. apply in_flat_map in Hfl. destruct Hfl as [n [Hn Hxn]].
+  assert (Hex : b <> c_exit c).
+  { intros E. subst b. destruct HW as [_ [Ws _]]. rewrite Ws in Hn. destruct Hn. }
+  rewrite (sf_eq b Hex) in Hp.
+  destruct (greach_reachc b (HG b Hb)) as [Hbad | [t Hr]]; [left; exact Hbad|].
+  destruct (run_block b t Hb Hr) as [Hbad | [t' [Hs [HR HS]]]]; [left; exact Hbad|].
+  destruct (lookup (nth_scope ss0 b) x) as [l|] eqn:El; [|discriminate].
+  destruct (used (nth_scope ss0 b) x) as [[|]|] eqn:Eu; try discriminate.
+  assert (Kx : K x <> KCopy).
+  { destruct (lookup_cases _ _ _ El) as [[_ [Hin [Hid _]]] | [_ [_ [Hin [Hid _]]]]].
+    - destruct HS as [SK _]. rewrite <- Hid, <- (SK l Hin). destruct (l_kind l); simpl in Hp; congruence.
+    - destruct HS as [_ SK]. rewrite <- Hid, <- (SK l Hin). destruct (l_kind l); simpl in Hp; congruence. }
+  assert (Hn' : n < N) by (eapply succ_lt; eauto).
+  apply (dead_token_bad x Kx n (live_path n x Hn' Hxn) t').
+  - eapply rc_step; eauto.
+  - exact Hn'.
+  - eapply used_true_empty; eauto.
+Qed.
+
+(** (d) a linear token that nobody will read *)
+Lemma use_leaves_ext : forall ls s s', use_leaves s ls = Ok s' -> ext s s'.
+Proof.
+  induction ls as [|a r IHr]; intros s0 s' H; simpl in H.
+  - inversion H. apply ext_refl.
+  - destruct (used s0 (l_id a)); [|discriminate].
+    destruct (b && negb (is_copy (l_kind a))); [discriminate|].
+    destruct (use_leaf s0 (l_id a)) eqn:E; [|discriminate].
+    eapply ext_trans; [eapply use_leaf_ext; eauto | eapply IHr; eauto].
+Qed.
+
+Lemma use_leaves_vars : forall ls s s', use_leaves s ls = Ok s' -> s_vars s' = s_vars s.
+Proof.
+  induction ls as [|a r IHr]; intros s0 s' H; simpl in H.
+  - inversion H. reflexivity.
+  - destruct (used s0 (l_id a)); [|discriminate].
+    destruct (b && negb (is_copy (l_kind a))); [discriminate|].
+    destruct (use_leaf s0 (l_id a)) as [s1|] eqn:E; [|discriminate].
+    rewrite (IHr _ _ H). unfold use_leaf in E.
+    destruct (has_leaf (l_id a) (s_vars s0)); [inversion E; reflexivity|].
+    destruct (s_entry s0); [discriminate|]. destruct (has_leaf (l_id a) (s_pvars s0)); [|discriminate].
+    inversion E; reflexivity.
+Qed.
+
+Lemma use_leaves_marks : forall ls s s', use_leaves s ls = Ok s' ->
+  forall l, In l ls -> has_leaf (l_id l) (s_vars s') = true \/ In (l_id l) (s_pul s').
+Proof.
+  induction ls as [|a r IHr]; intros s0 s' H l Hl; [destruct Hl|]. simpl in H.
+  destruct (used s0 (l_id a)); [|discriminate].
+  destruct (b && negb (is_copy (l_kind a))); [discriminate|].
+  destruct (use_leaf s0 (l_id a)) as [s1|] eqn:E; [|discriminate].
+  destruct Hl as [Hl | Hl]; [subst a | eapply IHr; eauto].
+  destruct (use_leaves_ext _ _ _ H) as [E1 [_ [E3 _]]].
+  unfold use_leaf in E. destruct (has_leaf (l_id l) (s_vars s0)) eqn:Hv.
+  - inversion E; subst s1. left. apply E1. exact Hv.
+  - destruct (s_entry s0); [discriminate|]. destruct (has_leaf (l_id l) (s_pvars s0)); [|discriminate].
+    inversion E; subst s1. right. apply E3. simpl. auto.
+Qed.
+
+Lemma assign_leaves_has : forall x ls s, has_leaf x (s_vars (assign_leaves s ls)) = true ->
+  has_leaf x (s_vars s) = true \/ exists l, In l ls /\ l_id l = x.
+Proof.
+  intros x. unfold assign_leaves. induction ls as [|l r IH]; intros s H; simpl in H; auto.
+  destruct (IH _ H) as [Hq | [l' [A B]]].
+  - simpl in Hq. rewrite has_leaf_cons in Hq. destruct (Nat.eqb (l_id l) x) eqn:E.
+    + apply Nat.eqb_eq in E. right. exists l. simpl. auto.
+    + simpl in Hq. rewrite has_leaf_remove in Hq; auto. apply Nat.eqb_neq in E. auto.
+  - right. exists l'. simpl. auto.
+Qed.
+
+Lemma assign_checked_fresh : forall x ls t0 s s1 t t1, assign_leaves_checked s ls = Ok s1 ->
+  sem_assign t ls = Fine t1 -> leavesK K ls -> R K t0 s t -> K x = KLinear -> t0 x = true ->
+  ~ In x (s_pul s) -> has_leaf x (s_vars s) = false -> has_leaf x (s_vars s1) = false.
+Proof.
+  intros x. induction ls as [|l r IH]; intros t0 s s1 t t1 Hrun Hsem HKl HR Kx T0 Hnp Hv; simpl in *.
+  - inversion Hrun; subst; auto.
+  - assert (Hl : l_kind l = K (l_id l)) by (apply HKl; simpl; auto).
+    assert (HK' : leavesK K r) by (intros l' H; apply HKl; simpl; auto).
+    match type of Hrun with (if ?b then _ else _) = _ => destruct b end; [discriminate|].
+    pose proof (assign_leaf_R K t0 s t l Hl HR) as HR1.
+    destruct (Nat.eq_dec (l_id l) x) as [E | E].
+    + exfalso. subst x. rewrite Hl, Kx in Hsem. simpl in Hsem.
+      assert (Kc : K (l_id l) <> KCopy) by congruence.
+      rewrite (proj2 (HR _ Kc) Hv), T0 in Hsem. apply memb_false in Hnp. rewrite Hnp in Hsem. discriminate.
+    + assert (Hv1 : has_leaf x (s_vars (assign_leaf s l)) = false).
+      { simpl. rewrite has_leaf_cons. apply Nat.eqb_neq in E. rewrite E. simpl. rewrite has_leaf_remove; auto.
+        apply Nat.eqb_neq in E. auto. }
+      destruct (is_copy (l_kind l)).
+      * eapply IH; eauto.
+      * destruct (t (l_id l) && is_linear (l_kind l)); [discriminate|]. eapply IH; eauto.
+Qed.
+
+Lemma def_needs_empty : forall x es B t0 s sf t t', run_events fin s es = Ok sf -> eventsK K es ->
+  R K t0 s t -> scopeK K s -> sem_events fin t es = Fine t' -> reassign_wf B es ->
+  (forall y, In y B -> has_leaf y (s_vars s) = true \/ In y (s_pul s)) ->
+  K x = KLinear -> t0 x = true -> has_leaf x (s_vars s) = false -> ~ In x (s_pul sf) ->
+  has_leaf x (s_vars sf) = false.
+Proof.
+  intros x. induction es as [|e r IH]; intros B t0 s sf t t' Hrun HKe HR HS Hsem HB Hinv Kx T0 Hv Hnp; simpl in *.
+  - inversion Hrun; subst; auto.
+  - destruct (step_event fin s e) as [s1|] eqn:E; [|discriminate].
+    destruct (sem_event fin t e) as [t1|] eqn:E2; [|discriminate].
+    assert (HKe1 : leavesK K (event_place e)) by (apply HKe; simpl; auto).
+    assert (HK' : eventsK K r) by (intros e' H; apply HKe; simpl; auto).
+    destruct (step_event_R K fin e t0 s s1 t t1 E HKe1 HR HS E2) as [HR1 HS1].
+    pose proof (step_event_ext fin e s s1 E) as X01.
+    pose proof (run_events_ext fin r s1 sf Hrun) as X1f.
+    assert (Hnp1 : ~ In x (s_pul s1)).
+    { intros H. apply Hnp. destruct X1f as [_ [_ [I3 _]]]. apply I3. exact H. }
+    assert (Hnp0 : ~ In x (s_pul s)).
+    { intros H. apply Hnp1. destruct X01 as [_ [_ [I3 _]]]. apply I3. exact H. }
+    assert (Hinv1 : forall y, In y B -> has_leaf y (s_vars s1) = true \/ In y (s_pul s1)).
+    { intros y Hy. destruct X01 as [I1 [_ [I3 _]]]. destruct (Hinv y Hy); auto. }
+    destruct e as [p k | p | p | p | e0]; simpl in E, E2, HKe1.
+    + destruct (p_inout p && negb (is_borrow k)); [discriminate|].
+      assert (Hv1 : has_leaf x (s_vars s1) = false) by (rewrite (use_leaves_vars _ _ _ E); exact Hv).
+      destruct k; try (eapply (IH B); eauto; fail).
+      eapply (IH (map l_id (leaves (p_tree p)) ++ B)); eauto.
+      intros y Hy. apply in_app_or in Hy. destruct Hy as [Hy | Hy]; auto.
+      apply in_map_iff in Hy. destruct Hy as [l [A Hl]]. subst y. eapply use_leaves_marks; eauto.
+    + match type of E with (if ?b then _ else _) = _ => destruct b end; [discriminate|].
+      eapply (IH B); eauto. eapply assign_checked_fresh; eauto.
+    + destruct (input_is_borrowed fin (p_id p)); [discriminate|]. inversion E; subst s1.
+      eapply (IH B); eauto.
+    + destruct HB as [HB1 HB2]. inversion E; subst s1.
+      eapply (IH B); eauto.
+      destruct (has_leaf x (s_vars (assign_leaves s (leaves (p_tree p))))) eqn:Hh; auto. exfalso.
+      destruct (assign_leaves_has _ _ _ Hh) as [H | [l [A Bx]]]; [congruence|].
+      subst x. destruct (Hinv _ (HB1 l A)) as [H | H]; [congruence | contradiction].
+    + discriminate.
+Qed.
+
+Hypothesis HRW : forall blk, In blk (c_blocks c) -> reassign_wf [] (lb_events blk).
+
+Lemma not_live : forall b x, b < N -> ~ In x (getv L b) ->
+  ~ In x (s_up (nth_scope ss b)) /\
+  (has_leaf x (s_vars (nth_scope ss b)) = true \/ forall n, In n (succs b) -> ~ In x (getv L n)).
+Proof.
+  intros b x Hb Hn. split.
+  - intros H. apply Hn. eapply (live_eq' c sched ss0 ss); eauto.
+  - destruct (has_leaf x (s_vars (nth_scope ss b))) eqn:Hv; auto. right. intros n Hin Hx. apply Hn.
+    eapply (live_eq' c sched ss0 ss); eauto. right. split.
+    + intros Hd. apply in_map_iff in Hd. destruct Hd as [l [A B]].
+      assert (has_leaf x (s_vars (nth_scope ss b)) = true) by (apply has_leaf_true; eauto). congruence.
+    + exists n. auto.
+Qed.
+
+Lemma leak_bad : forall x, K x = KLinear -> forall n, reaches_exit c n ->
+  forall t, reachc n t -> n < N -> t x = true -> ~ In x (getv L n) -> violated.
+Proof.
+  intros x Kx n Hre. assert (Kc : K x <> KCopy) by congruence.
+  induction Hre as [|n m Hm Hre IH]; intros t Hr Hb Tx Hnl.
+  - right.
+    destruct (reachc_extend _ _ Hr [] 0 (Fine t) I) as [rest [A [B C]]].
+    + simpl. unfold block_start. destruct HW as [_ [_ [Wn _]]].
+      assert (Nat.eqb (c_exit c) (c_entry c) = false) by (apply Nat.eqb_neq; auto). rewrite H. reflexivity.
+    + exists rest, 0, t. repeat split; auto. intros Hf. destruct (Hf x Kc) as [_ F].
+      apply Hnl. eapply (live_eq' c sched ss0 ss); eauto. left. eapply exit_up; eauto.
+  - assert (Hex : n <> c_exit c).
+    { intros E. subst n. destruct HW as [_ [Ws _]]. rewrite Ws in Hm. destruct Hm. }
+    destruct (not_live n x Hb Hnl) as [Hnu Hcase]. rewrite (sf_eq n Hex) in Hnu, Hcase.
+    destruct (run_block n t Hb Hr) as [Hbad | [t' [Hs [HR HS]]]]; [left; exact Hbad|].
+    destruct (block_ext n Hb) as [_ [Iup _]]. rewrite Iup in Hnu.
+    destruct (start_R n t Hb) as [R0 [S0 [_ [_ Hnil]]]]. destruct (blockK' n Hb) as [_ KE].
+    assert (Hne : Nat.eqb n (c_entry c) = false).
+    { destruct (Nat.eqb n (c_entry c)) eqn:Ee; auto. apply Nat.eqb_eq in Ee.
+      rewrite (reachc_entry_empty n t Hr Ee) in Tx. discriminate. }
+    destruct (Hnil Hne) as [V0 P0].
+    assert (Hv : has_leaf x (s_vars (nth_scope ss0 n)) = false).
+    { apply (def_needs_empty x (evs n) [] t _ (nth_scope ss0 n) (block_start c n t) t'
+               (block_run c ss0 H1 n Hb) KE R0 S0 Hs (HRW _ (nth_In _ _ Hb))); auto.
+      rewrite V0. reflexivity. }
+    destruct Hcase as [Hc | Hc]; [congruence|].
+    assert (Hm' : m < N) by (eapply succ_lt; eauto).
+    apply (IH t').
+    + eapply rc_step; eauto.
+    + exact Hm'.
+    + rewrite (proj2 (HR x Kc) Hv), Tx. apply memb_false in Hnu. rewrite Hnu. reflexivity.
+    + apply Hc. exact Hm.
+Qed.
+
+Hypothesis HEX : forall b, b < N -> reaches_exit c b.
+
+Theorem complete_unused : forall b xs, check_dataflow true c ss L 0 (c_blocks c) = RejUnused b xs -> violated.
+Proof.
+  intros b xs H. pose proof (check_dataflow_rej true (c_blocks c) 0) as P. rewrite H in P.
+  destruct P as [j [blk [A [B [C1 [C2 Hne]]]]]]. simpl in A. subst j.
+  destruct (nth_error_block _ _ B) as [Hb Eb]. subst blk.
+  destruct xs as [|x xs]; [congruence|]. clear Hne.
+  assert (Hx : In x (check2 true (nth_scope ss b) L b (succs b))) by (rewrite C2; simpl; auto).
+  unfold check2 in Hx. apply in_map_iff in Hx. destruct Hx as [l [Hid Hl]]. apply filter_In in Hl.
+  destruct Hl as [Hent Hp]. rewrite Hid in Hp.
+  apply andb_true_iff in Hp. destruct Hp as [Hp Hp4]. apply andb_true_iff in Hp. destruct Hp as [Hp Hp3].
+  apply andb_true_iff in Hp. destruct Hp as [Hp1 Hp2].
+  (* a successor in which x is not live *)
+  apply negb_true_iff in Hp4.
+  assert (Hsucc : exists n, In n (succs b) /\ ~ In x (getv L n)).
+  { clear - Hp4. induction (succs b) as [|a r IH]; simpl in Hp4; [discriminate|].
+    apply andb_false_iff in Hp4. destruct Hp4 as [H | H].
+    - exists a. split; simpl; auto. apply memb_false. exact H.
+    - destruct (IH H) as [n [A B]]. exists n. simpl. auto. }
+  destruct Hsucc as [n [Hn Hnl]].
+  assert (Hex : b <> c_exit c).
+  { intros E. subst b. destruct HW as [_ [Ws _]]. rewrite Ws in Hn. destruct Hn. }
+  rewrite (sf_eq b Hex) in Hent, Hp1, Hp3.
+  destruct (greach_reachc b (HG b Hb)) as [Hbad | [t Hr]]; [left; exact Hbad|].
+  destruct (run_block b t Hb Hr) as [Hbad | [t' [Hs [HR HS]]]]; [left; exact Hbad|].
+  set (sf := nth_scope ss0 b) in *.
+  assert (Hn' : n < N) by (eapply succ_lt; eauto).
+  unfold scope_entries in Hent. apply in_app_or in Hent.
+  assert (Hfull : K x = KLinear /\ (t' x = true \/ violated)).
+  { destruct Hent as [Hin | Hin].
+    - assert (Hv : has_leaf x (s_vars sf) = true) by (apply has_leaf_true; eauto).
+      destruct HS as [SK _]. assert (Kx : K x = KLinear).
+      { rewrite <- Hid, <- (SK l Hin). destruct (l_kind l); simpl in Hp2; congruence. }
+      split; auto. left. assert (Kc : K x <> KCopy) by congruence.
+      rewrite (proj1 (HR x Kc) Hv). unfold used in Hp3. rewrite Hv in Hp3. exact Hp3.
+    - apply filter_In in Hin. destruct Hin as [Hin Hsh]. rewrite Hid in Hsh. apply negb_true_iff in Hsh.
+      destruct HS as [_ SK]. assert (Kx : K x = KLinear).
+      { rewrite <- Hid, <- (SK l Hin). destruct (l_kind l); simpl in Hp2; congruence. }
+      split; auto. assert (Kc : K x <> KCopy) by congruence.
+      rewrite Hsh, orb_false_r in Hp1. apply memb_In in Hp1.
+      destruct (t x) eqn:Tx.
+      + left. rewrite (proj2 (HR x Kc) Hsh), Tx. unfold used in Hp3. rewrite Hsh in Hp3.
+        destruct (s_entry sf); [discriminate|]. destruct (has_leaf x (s_pvars sf)); [|discriminate].
+        simpl. exact Hp3.
+      + right. apply (dead_token_bad x Kc b (live_path b x Hb Hp1) t Hr Hb Tx). }
+  destruct Hfull as [Kx [Tx | Hv]]; [|exact Hv].
+  apply (leak_bad x Kx n (HEX n Hn') t'); auto. eapply rc_step; eauto.
+Qed.
+
 End Global.
+
+Lemma err_eq_crash : forall e : err, e = ErrCrash \/ e <> ErrCrash.
+Proof. intros []; auto; right; discriminate. Qed.
+
+Lemma check_dataflow_no_block : forall fx c ss Lv bs k b e, check_dataflow fx c ss Lv k bs <> RejBlock b e.
+Proof.
+  intros fx c ss Lv. induction bs as [|blk r IH]; intros k b e; simpl; [discriminate|].
+  destruct (check1 (nth_scope ss k) Lv (lb_succ blk)) as [[|x xs]|]; try discriminate.
+  destruct (check2 fx (nth_scope ss k) Lv k (lb_succ blk)); try discriminate.
+  destruct (row_ok c (nth_scope ss k) Lv k); [apply IH | discriminate].
+Qed.
+
+Definition crashed (v : verdict) : Prop := (exists b, v = Crash b) \/ (exists b, v = RejBlock b ErrCrash).
+
+Definition events_wf (c : lcfg) : Prop :=
+  forall blk, In blk (c_blocks c) -> shadow_wf (lb_events blk) /\ reassign_wf [] (lb_events blk).
+Definition all_reach (c : lcfg) : Prop :=
+  forall b, b < length (c_blocks c) -> greach c b /\ reaches_exit c b.
+
+Lemma lin_complete_lemma : forall c sched K, uniform K c -> wf_shape c -> io_ok c -> events_wf c ->
+  c_exit_reachable c = true -> all_reach c -> ~ violated K c ->
+  check_cfg true c sched = Accept \/ crashed (check_cfg true c sched).
+Proof.
+  intros c sched K HK HW HIO HE HER HR HV. unfold check_cfg.
+  destruct (check_blocks (c_inputs c) (c_entry c) 0 (c_blocks c)) as [ss0 | [b e]] eqn:E1.
+  - destruct (exit_used c ss0) as [ss|] eqn:E2; [|right; left; eauto].
+    destruct (wf_cfg (stats_cfg c ss) && (c_exit c <? length (c_blocks c)) && (c_entry c <? length (c_blocks c))) eqn:E3;
+      [|right; left; eauto].
+    apply andb_true_iff in E3. destruct E3 as [E3 E5]. apply andb_true_iff in E3. destruct E3 as [E3 E4].
+    apply Nat.ltb_lt in E4. apply Nat.ltb_lt in E5.
+    destruct (check_dataflow true c ss (live_of c ss sched) 0 (c_blocks c)) as [ | b e | b xs | b xs | b] eqn:E6.
+    + left. reflexivity.
+    + exfalso. eapply check_dataflow_no_block; eauto.
+    + exfalso. apply HV. eapply (complete_used K c HK HW HIO) with (ss0 := ss0) (ss := ss) (sched := sched); eauto.
+      intros b0 Hb0. apply HR. exact Hb0.
+    + exfalso. apply HV. eapply (complete_unused K c HK HW HIO) with (ss0 := ss0) (ss := ss) (sched := sched); eauto.
+      * intros b0 Hb0. apply HR. exact Hb0.
+      * intros blk Hb. apply HE. exact Hb.
+      * intros b0 Hb0. apply HR. exact Hb0.
+    + right. left. eauto.
+  - destruct (err_eq_crash e) as [Ec | Ec]; [subst e; right; right; eauto|].
+    exfalso. apply HV. left.
+    destruct (check_blocks_err c _ _ _ _ E1) as [j [blk [A [B C]]]]. simpl in A. subst j.
+    assert (Hb : b < length (c_blocks c)) by (apply nth_error_Some; congruence).
+    eapply complete_blocks with (K := K); eauto.
+    + intros blk0 Hb0. apply HE. exact Hb0.
+    + apply HR. exact Hb.
+Qed.
